@@ -254,6 +254,9 @@ pub struct Plan {
     pub senders: Vec<Vec<AppOp>>,
     /// per-mille: a gate completes without parking
     pub p_immediate: u32,
+    /// per-mille: a parked publish/protocol handler is held until the closing phase (it does not
+    /// complete while the scripted part runs)
+    pub p_hold: u32,
     /// ok / neg / err weights for handler outcomes
     pub w_outcome: [u32; 3],
     /// eager / lazy / abandon weights for payload reading
@@ -270,4 +273,6 @@ pub struct Plan {
     pub horizon_ms: u64,
     /// two connections created from the same server factory (C17)
     pub conns: usize,
+    /// what the generator injected on purpose, for the oracles ("inject:<cause>")
+    pub tags: Vec<String>,
 }
